@@ -195,7 +195,7 @@ impl St {
     }
 
     // ------------------------------------------------------------ lock-step traversal
-    fn kids_of<'gc>(p: Ptr<'gc>) -> (Vec<Ptr<'gc>>, Vec<WPtr<'gc>>) {
+    pub fn kids_of<'gc>(p: Ptr<'gc>) -> (Vec<Ptr<'gc>>, Vec<WPtr<'gc>>) {
         match p {
             Ptr::N(g) => {
                 let b = g.borrow();
